@@ -268,9 +268,7 @@ func runCase(c Case) (st stats, err error) {
 
 	var r io.Reader = bytes.NewReader(wire)
 	br := r.(*bytes.Reader)
-	if c.SegKind != 0 {
-		r = &xport.SegReader{R: r, Sched: xport.Sched(c.SegKind, c.Seg)}
-	}
+	r = xport.Segment(r, c.SegKind, c.Seg)
 	p := rtmp.NewProtocol(xport.RW{Reader: r, Writer: io.Discard})
 	var kept []*rtmp.Message
 	for i, w := range b.want {
@@ -443,8 +441,8 @@ func genCase(t *rapid.T) Case {
 	default:
 		c.Sched = rapid.SliceOfN(rapid.IntRange(0, 11), 1, 24).Draw(t, "sched")
 	}
-	c.SegKind = rapid.IntRange(0, 2).Draw(t, "segk")
-	if c.SegKind == 2 {
+	c.SegKind = rapid.IntRange(0, xport.SegKinds-1).Draw(t, "segk")
+	if c.SegKind == 2 || c.SegKind == 3 {
 		c.Seg = rapid.SliceOfN(rapid.IntRange(1, 20), 1, 8).Draw(t, "seg")
 	}
 	if rapid.IntRange(0, 4).Draw(t, "neg") == 0 {
